@@ -1275,7 +1275,7 @@ theorem timeouts_in_force {fx : Fixes} {d : Defaults} {p : Pers} {env : Env} {ar
       (∀ t, chosenText (getopt (fullString d p) argv).1 env 'u' "PDSH_COMMAND_TIMEOUT" = some t →
         CInt.denotes t = some (ut : Int)) ∧
       (chosenText (getopt (fullString d p) argv).1 env 'u' "PDSH_COMMAND_TIMEOUT" = none → ut = 0) ∧
-      ∀ (sopt sc sw : Bool) (v : Dsh.Fan.Variant) (f : Nat) (scripts : List Dsh.Timed.Script) (s : Dsh.Timed.St),
+      ∀ (sopt sc sw : Bool) (v : Dsh.FanG.Variant) (f : Nat) (scripts : List Dsh.Timed.Script) (s : Dsh.Timed.St),
         Dsh.Timed.Reach v f (timedCfg c sopt sc sw) scripts s → ∀ j, j < s.hs.length →
           ((s.host j).ph = .connecting → 0 < ct → s.now ≤ (s.host j).start + ct + Dsh.Timed.WDOG_POLL) ∧
           ((s.host j).ph = .reading → 0 < ut → s.now ≤ (s.host j).conn + ut + Dsh.Timed.WDOG_POLL) ∧
